@@ -7,6 +7,7 @@
 #include <dirent.h>
 #include <fcntl.h>
 #include <time.h>
+#include <signal.h>
 
 namespace xr {
 using namespace vh;
@@ -43,6 +44,8 @@ inline XRun run_echsx(const std::string &echsx, const std::string &shim, const s
 	if (pid < 0) return r;
 	if (pid == 0) {
 		setpgid(0, 0);
+		// a defined signal state whatever started the check (a shell puts background commands under SIGINT/SIGQUIT = ignore, and that is inherited through exec)
+		{ sigset_t none; sigemptyset(&none); sigprocmask(SIG_SETMASK, &none, nullptr); for (int sg : {SIGINT, SIGQUIT, SIGTERM, SIGHUP, SIGPIPE, SIGALRM, SIGXCPU, SIGCHLD}) signal(sg, SIG_DFL); }
 		setenv("LD_PRELOAD", shim.c_str(), 1); setenv("VERIF_SENDMAIL", (wd + "/sendmail.sh").c_str(), 1); setenv("VERIF_MAIL_OUT", (wd + "/mail.txt").c_str(), 1); setenv("VERIF_SHIM_LOG", (wd + "/shim.log").c_str(), 1);
 		if (alarm_scale_us > 0) setenv("VERIF_ALARM_SCALE_US", std::to_string(alarm_scale_us).c_str(), 1); else unsetenv("VERIF_ALARM_SCALE_US");
 		unsetenv("ASAN_OPTIONS");
